@@ -186,3 +186,24 @@ def resolve_locals(P, u, expr, depth=4):
 
 def rtext(P, u, expr):
     return ast.unparse(resolve_locals(P, u, expr)).replace(' ', '')
+
+
+def reaching_defs(u, cfg):
+    """reaching definitions: node id -> {var: frozenset(def)} where def is 'param' or the defining statement / For node"""
+    init = {p: frozenset(['param']) for p in u.params}
+
+    def tr(n, st):
+        names = names_assigned(n)
+        if not names:
+            return st
+        st = dict(st)
+        for v in names:
+            st[v] = frozenset([n.ast])
+        return st
+
+    def join(a, b):
+        out = dict(a)
+        for k, v in b.items():
+            out[k] = out.get(k, frozenset()) | v
+        return out
+    return solve_forward(cfg, init, tr, lambda lab, st: st, join)
